@@ -23,34 +23,41 @@ func sameValue(a, b ssa.Value) bool {
 // through parameters (bottom-up parameter mapping, depth ≤ 3).
 func (w *World) guardUp(fn *ssa.Function, point *ssa.BasicBlock, val ssa.Value, depth int, chain string) (bool, string) {
 	cg := w.CG()
-	var gets []ssa.Value
-	for _, s := range cg.Sites[fn] {
-		if cg.Atom(s) == AuthGet && (s.Method == "GetAccount" || s.Method == "HasAccount") {
-			a := s.Args()
-			if len(a) > 0 && sameValue(a[len(a)-1], val) {
-				if c := siteValue(s); c != nil {
-					gets = append(gets, c)
+	// the guard: the edges on which GetAccount / HasAccount of the address of interest said "no such account"; through
+	// guardEdgesIn also the success of an error-returning helper into which that test was moved (`if err :=
+	// k.checkDestination(ctx, to); err != nil { return err }`)
+	spec := GuardSpec{Name: "GetAccount(addr) == nil", IsVal: func(v ssa.Value) bool { return sameValue(v, val) },
+		Edges: func(f *ssa.Function, bind Bind, isVal func(ssa.Value) bool) []Edge {
+			var gets []ssa.Value
+			for _, s := range cg.Sites[f] {
+				if cg.Atom(s) == AuthGet && (s.Method == "GetAccount" || s.Method == "HasAccount") {
+					a := s.Args()
+					if len(a) > 0 && isVal(a[len(a)-1]) {
+						if c := siteValue(s); c != nil {
+							gets = append(gets, c)
+						}
+					}
 				}
 			}
-		}
-	}
-	// a module accessor that does nothing but return GetAccount(its parameter) is the same read
-	for _, s := range cg.Sites[fn] {
-		h := s.Static
-		if h == nil || s.Invoke || h.Blocks == nil || !w.isProdFunc(h) {
-			continue
-		}
-		if pi := w.authGetWrapperParam(h); pi >= 0 && pi < len(s.Common().Args) && sameValue(s.Common().Args[pi], val) {
-			if c := siteValue(s); c != nil {
-				gets = append(gets, c)
+			// a module accessor that does nothing but return GetAccount(its parameter) is the same read
+			for _, s := range cg.Sites[f] {
+				h := s.Static
+				if h == nil || s.Invoke || h.Blocks == nil || !w.isProdFunc(h) {
+					continue
+				}
+				if pi := w.authGetWrapperParam(h); pi >= 0 && pi < len(s.Common().Args) && isVal(s.Common().Args[pi]) {
+					if c := siteValue(s); c != nil {
+						gets = append(gets, c)
+					}
+				}
 			}
-		}
-	}
-	set := map[ssa.Value]bool{}
-	for _, g := range gets {
-		set[g] = true
-	}
-	edges := NilEdges(fn, set, true)
+			set := map[ssa.Value]bool{}
+			for _, g := range gets {
+				set[g] = true
+			}
+			return NilEdges(f, set, true)
+		}}
+	edges, _ := cg.guardEdgesIn(fn, Bind{}, spec, 0)
 	if MustPass(fn, edges, point) {
 		return true, chain + funcName(fn) + " (guard here)"
 	}
@@ -179,22 +186,61 @@ func (w *World) upValues(fn *ssa.Function, v ssa.Value, depth int) [][2]interfac
 	return out
 }
 
-// signerFields: for a message type, the field names parsed by GetSigners.
+// signerFields: for a message type, the field names parsed by GetSigners (directly, or in a helper the field is
+// handed to: `return authoritySigners(msg.Authority)`).
 func (w *World) signerFields(named *types.Named) []string {
 	fn := w.methodOf(named, "GetSigners")
 	if fn == nil || fn.Blocks == nil {
 		return nil
 	}
-	var out []string
 	cg := w.CG()
-	for _, s := range cg.Sites[fn] {
-		if s.Static != nil && hasSuffixAny(qualifiedFuncName(s.Static), "types.AccAddressFromBech32", "types.MustAccAddressFromBech32") {
-			a := s.Common().Args[0]
-			if u, ok := a.(*ssa.UnOp); ok {
-				if fa, ok := u.X.(*ssa.FieldAddr); ok {
-					_, f := fieldOf(fa)
-					out = append(out, f)
+	fieldOfArg := func(a ssa.Value) string {
+		if u, ok := a.(*ssa.UnOp); ok {
+			if fa, ok := u.X.(*ssa.FieldAddr); ok {
+				_, f := fieldOf(fa)
+				return f
+			}
+		}
+		return ""
+	}
+	// parsesParam: h hands its parameter p to (Must)AccAddressFromBech32, possibly through one more helper
+	var parsesParam func(h *ssa.Function, p *ssa.Parameter, depth int) bool
+	parsesParam = func(h *ssa.Function, p *ssa.Parameter, depth int) bool {
+		for _, s := range cg.Sites[h] {
+			if s.Static == nil || s.Invoke {
+				continue
+			}
+			for i, a := range s.Common().Args {
+				if a != ssa.Value(p) {
+					continue
 				}
+				if hasSuffixAny(qualifiedFuncName(s.Static), "types.AccAddressFromBech32", "types.MustAccAddressFromBech32") {
+					return true
+				}
+				if depth < 2 && s.Static.Blocks != nil && w.isProdFunc(s.Static) && i < len(s.Static.Params) && parsesParam(s.Static, s.Static.Params[i], depth+1) {
+					return true
+				}
+			}
+		}
+		return false
+	}
+	var out []string
+	for _, s := range cg.Sites[fn] {
+		if s.Static == nil || s.Invoke {
+			continue
+		}
+		if hasSuffixAny(qualifiedFuncName(s.Static), "types.AccAddressFromBech32", "types.MustAccAddressFromBech32") {
+			if f := fieldOfArg(s.Common().Args[0]); f != "" {
+				out = append(out, f)
+			}
+			continue
+		}
+		if s.Static.Blocks == nil || !w.isProdFunc(s.Static) {
+			continue
+		}
+		for i, a := range s.Common().Args {
+			if f := fieldOfArg(a); f != "" && i < len(s.Static.Params) && parsesParam(s.Static, s.Static.Params[i], 0) {
+				out = append(out, f)
 			}
 		}
 	}
